@@ -18,8 +18,12 @@
    answer row (mixtures) or the stated affine function of answer rows (Student-t, celeux_two columns 3..11).
    Also outside the theorems: np.sum / BLAS rounding (the float instance is compared in L2), inputs with NaN or
    ragged shapes (rejected by sklearn's check_array before the modelled code; exercised in the malformed stream). *)
+(* The theorems about draw_gmm and multivariate_student_t are stated about gen_gmm_check / gen_gmm_calls / gen_gmm_run /
+   the gen_student functions of Gen/DataGenRules.v, i.e. about the definitions REGENERATED from the source on this build
+   (translator/tr_datagen.py); C20_regenerated_rules_are_documented shows them equal to the hand-written model.  The
+   dataset generators (gstm, celeux_one, celeux_two) are hand-modelled over regenerated constants (Gen/DataConstants.v). *)
 From Coq Require Import List Arith QArith Qreals Reals Permutation.
-From GV Require Import Common.Num Common.NumR Gen.DataConstants Model.DataGen Model.DataDoc Proofs.DataGen.
+From GV Require Import Common.Num Common.NumR Gen.DataConstants Model.DataGen Model.DataDoc Gen.DataGenRules Proofs.DataGen Proofs.DataGenRules.
 Import ListNotations.
 Close Scope Q_scope.
 Open Scope nat_scope.
@@ -29,23 +33,23 @@ Open Scope nat_scope.
    draw itself, and row i of X is row i of the draw array answered for component y_i *)
 Theorem C20_gmm_row_from_labelled_component :
   forall (T : Type) (o : NumOps T) (n : nat) (g : gmm_in (T := T)) (eig : nat -> list T) (rs : list (draw (T := T))),
-  gmm_check o g eig = None ->
+  gen_gmm_check o g eig = None ->
   Forall (fun r => length r = g_d g) (g_loc g) ->                (* loc is a rectangular K x d array *)
-  Forall2 resp_ok (gmm_calls o n g) rs ->
+  Forall2 resp_ok (gen_gmm_calls o n g) rs ->
   exists y comps X,
-    rs = DLabels y :: comps /\ length comps = g_K g /\ gmm_run rs = Some (X, y) /\
+    rs = DLabels y :: comps /\ length comps = g_K g /\ gen_gmm_run rs = Some (X, y) /\
     length X = n /\ Forall (fun r => length r = g_d g) X /\
     length y = n /\ Forall (fun k => k < g_K g) y /\
     forall i, i < n -> exists Xk,
       comp_rows (nth (nth i y 0) comps (DLabels [])) = Some Xk /\ is_mat n (g_d g) Xk /\ nth i X [] = nth i Xk [].
-Proof. exact @gmm_row_from_labelled_component. Qed.
+Proof. exact @gen_gmm_row_from_labelled_component. Qed.
 
 (* draw_gmm raises no error exactly on: at least 2 components (as-is: check_array(ensure_min_samples=2)), matching
    component counts, every proportion > 0, proportions summing to 1 within np.isclose's tolerance 1e-8 + 1e-5,
    and either (d = 1) a (K,1) array of variances all > 0, or (d > 1) K square d x d matrices, each symmetric within
    np.allclose's tolerance, with every eigenvalue reported by the eigvalsh oracle >= -1e-8, and not all-zero *)
 Theorem C20_validation_spec : forall (g : gmm_in (T := R)) (eig : nat -> list R),
-  gmm_check Rops g eig = None <->
+  gen_gmm_check Rops g eig = None <->
   (2 <= g_K g /\ 1 <= g_d g /\ scale_len (g_scale g) = g_K g /\ length (g_p g) = g_K g /\
    (forall x, In x (g_p g) -> (0 < x)%R) /\
    (Rabs (fold_left Rplus (g_p g) 0 - 1) <= / 100000000 + / 100000)%R /\
@@ -56,31 +60,29 @@ Theorem C20_validation_spec : forall (g : gmm_in (T := R)) (eig : nat -> list R)
            (Rabs (mget Rops m i j - mget Rops m j i) <= / 100000000 + / 100000 * Rabs (mget Rops m j i))%R) /\
         (forall e, In e (eig k) -> (- / 100000000 <= e)%R) /\
         (exists row x, In row m /\ In x row /\ x <> 0%R)))).
-Proof. exact validation_spec. Qed.
+Proof. exact gen_validation_spec. Qed.
 
 (* one-dimensional mixtures: the k-th component is requested as normal(loc[k], sqrt(variance[k])) - the scale passed,
    squared, is the documented variance *)
 Theorem C20_one_d_uses_sqrt_of_variance : forall (n : nat) (g : gmm_in (T := R)) (eig : nat -> list R),
-  gmm_check Rops g eig = None -> g_d g = 1 ->
+  gen_gmm_check Rops g eig = None -> g_d g = 1 ->
   exists s, g_scale g = Sc2 s /\ length s = g_K g /\
-    gmm_calls Rops n g = CChoice (g_K g) (g_p g) n ::
+    gen_gmm_calls Rops n g = CChoice (g_K g) (g_p g) n ::
                          map (fun lv => CNormal (fst lv) (map sqrt (snd lv)) n) (combine (g_loc g) s) /\
     Forall (fun row => exists v, row = [v] /\ (0 < v)%R /\ map sqrt row = [sqrt v] /\ (sqrt v * sqrt v = v)%R) s.
-Proof. exact one_d_uses_sqrt_of_variance. Qed.
+Proof. exact gen_one_d_uses_sqrt_of_variance. Qed.
 
 (* multivariate_student_t: X[i, j] = sqrt(df / u[i]) * nx[i, j] + loc[j], n rows of d columns, where
    nx = multivariate_normal(0, scale) and u = chisquare(df) are the two requests made *)
 Theorem C20_student_t_construction :
   forall (T : Type) (o : NumOps T) (df : T) (loc : list T) (scale nx : list (list T)) (u : list T) (n i : nat),
   is_mat n (length loc) nx -> length u = n -> i < n ->
-  student_calls o n loc scale df = [CMvn (map (fun _ => n0 o) loc) scale n; CChisq df n] /\
-  student_run o df loc [DMat nx; DVec u] = Some (student_rows o df loc nx u) /\
-  length (student_rows o df loc nx u) = n /\
-  length (nth i (student_rows o df loc nx u) []) = length loc /\
-  forall j, j < length loc ->
-    nth j (nth i (student_rows o df loc nx u) []) (n0 o)
-    = nadd o (nmul o (nsqrt o (ndiv o df (nth i u (n0 o)))) (nth j (nth i nx []) (n0 o))) (nth j loc (n0 o)).
-Proof. exact @student_t_construction. Qed.
+  gen_student_calls o n loc scale df = [CMvn (repeat (n0 o) (length loc)) scale n; CChisq df n] /\
+  (exists X, gen_student_run o df loc [DMat nx; DVec u] = Some X /\ length X = n /\ length (nth i X []) = length loc /\
+     forall j, j < length loc ->
+       nth j (nth i X []) (n0 o)
+       = nadd o (nmul o (nsqrt o (ndiv o df (nth i u (n0 o)))) (nth j (nth i nx []) (n0 o))) (nth j loc (n0 o))).
+Proof. exact @gen_student_t_construction. Qed.
 
 (* gstm: 3n//4 samples of the three-component Gaussian mixture (labels 0,1,2, row taken from the draw array of its
    label), the other n - 3n//4 samples Student-t (label 3), X and y shuffled by the same permutation *)
@@ -211,28 +213,42 @@ Proof. exact constants_match_documented. Qed.
    statistically by the harness (L3, 6-sigma bands). *)
 Theorem C20_sample_from_labelled_request_partial :
   forall (T : Type) (o : NumOps T) (n : nat) (g : gmm_in (T := T)) (eig : nat -> list T) (rs : list (draw (T := T))),
-  gmm_check o g eig = None -> Forall (fun r => length r = g_d g) (g_loc g) ->
-  Forall2 resp_ok (gmm_calls o n g) rs ->
-  exists X y, gmm_run rs = Some (X, y) /\ length X = n /\ length y = n /\
+  gen_gmm_check o g eig = None -> Forall (fun r => length r = g_d g) (g_loc g) ->
+  Forall2 resp_ok (gen_gmm_calls o n g) rs ->
+  exists X y, gen_gmm_run rs = Some (X, y) /\ length X = n /\ length y = n /\
     forall i, i < n ->
       let k := nth i y 0 in
       k < g_K g /\
       (exists Xk, comp_rows (nth (S k) rs (DLabels [])) = Some Xk /\ nth i X [] = nth i Xk []) /\
       match g_scale g with
-      | Sc2 s => g_d g = 1 /\ nth (S k) (gmm_calls o n g) (CPerm 0) = CNormal (nth k (g_loc g) []) (map (nsqrt o) (nth k s [])) n
-      | Sc3 s => g_d g <> 1 /\ nth (S k) (gmm_calls o n g) (CPerm 0) = CMvn (nth k (g_loc g) []) (nth k s []) n
+      | Sc2 s => g_d g = 1 /\ nth (S k) (gen_gmm_calls o n g) (CPerm 0) = CNormal (nth k (g_loc g) []) (map (nsqrt o) (nth k s [])) n
+      | Sc3 s => g_d g <> 1 /\ nth (S k) (gen_gmm_calls o n g) (CPerm 0) = CMvn (nth k (g_loc g) []) (nth k s []) n
       end.
-Proof. exact @sample_from_labelled_request. Qed.
+Proof. exact @gen_sample_from_labelled_request. Qed.
+
+(* the definitions regenerated from draw_gmm and multivariate_student_t on this build (validation tests in source order
+   with their operators, thresholds and raise sites; requests and their arguments; row selection; Student-t shape test,
+   draws and entry-wise expression) ARE the hand-written golden model of Model/DataGen.v, in every number system *)
+Theorem C20_regenerated_rules_are_documented : forall (T : Type) (o : NumOps T),
+  (forall g eig, gen_gmm_check o g eig = gmm_check o g eig) /\
+  (forall n g, gen_gmm_calls o n g = gmm_calls o n g) /\
+  (forall rs, gen_gmm_run rs = gmm_run (T := T) rs) /\
+  (forall (d : list T) y X, gen_gmm_select d y X = gmm_select d y X) /\
+  (forall loc scale, gen_student_check loc scale = student_check (T := T) loc scale) /\
+  (forall n loc scale df, gen_student_calls o n loc scale df = student_calls o n loc scale df) /\
+  (forall df u z l, gen_student_entry o df u z l = student_entry o df u z l) /\
+  (forall df loc rs, gen_student_run o df loc rs = student_run o df loc rs).
+Proof. exact regenerated_rules_are_documented. Qed.
 
 (* non-vacuity: a concrete valid two-component 2-D mixture, answers within the oracle contract, and the run *)
 Example C20_nonvacuous :
   let g := {| g_loc := [[0; 0]; [1; 2]]%R; g_scale := Sc3 [[[1; 0]; [0; 1]]; [[2; 1]; [1; 2]]]%R; g_p := [/ 2; / 2]%R |} in
   let eig := fun k => match k with O => [1; 1]%R | _ => [1; 3]%R end in
   let rs := [DLabels [1; 0; 1]; DMat [[10; 11]; [12; 13]; [14; 15]]%R; DMat [[20; 21]; [22; 23]; [24; 25]]%R] in
-  gmm_check Rops g eig = None /\ Forall (fun r => length r = g_d g) (g_loc g) /\
-  Forall2 resp_ok (gmm_calls Rops 3 g) rs /\
-  gmm_run rs = Some ([[20; 21]; [12; 13]; [24; 25]]%R, [1; 0; 1]).
-Proof. exact nonvacuous_example. Qed.
+  gen_gmm_check Rops g eig = None /\ Forall (fun r => length r = g_d g) (g_loc g) /\
+  Forall2 resp_ok (gen_gmm_calls Rops 3 g) rs /\
+  gen_gmm_run rs = Some ([[20; 21]; [12; 13]; [24; 25]]%R, [1; 0; 1]).
+Proof. exact gen_nonvacuous_example. Qed.
 
 Print Assumptions C20_gmm_row_from_labelled_component.
 Print Assumptions C20_validation_spec.
@@ -247,3 +263,4 @@ Print Assumptions C20_celeux_two_linear_part.
 Print Assumptions C20_noise_cov_symmetric_psd.
 Print Assumptions C20_constants_match_documented.
 Print Assumptions C20_sample_from_labelled_request_partial.
+Print Assumptions C20_regenerated_rules_are_documented.
